@@ -558,6 +558,28 @@ def l5(ctx):
                           "%s of `b[x := t]` is parsed by %s, which cannot produce a substitution pattern, while Display prints any pattern there: `?b[?x[?y := ?z] := ?t]` is printed and then rejected by the parser (print/parse round-trip broken for well-formed patterns)" % (what, sorted(C.short(p) for p in parsers)),
                           where_of(b, bi, s.get("line")))
     ctx.floor("Pattern::Subst constructions in parse.rs", n, 1)
+    # postfix brackets chain: the printer writes `b[x := t]` for ANY b, a substitution included (`?b[..][..]`), so after one
+    # bracket group was folded into a Pattern::Subst the parser has to look for the next one — the construction lies on a cycle
+    # of the control flow that leads back to the test for an opening bracket
+    for b0 in makers:
+        b = mir.inline_view(crate, b0)
+        for bi, si, s in b.statements():
+            if not (s["k"] == "assign" and s["rv"]["k"] == "agg" and s["rv"].get("adt") == SUB and s["rv"].get("variant") == "Subst"):
+                continue
+            again = bi in b.reach(b.succs(bi)) if hasattr(b, "succs") else None
+            if again is None:
+                nxt = []
+                t = b.blocks[bi]["term"]
+                if t["k"] == "goto":
+                    nxt = [t["target"]]
+                elif t["k"] == "call" and t.get("target") is not None:
+                    nxt = [t["target"]]
+                elif t["k"] == "switch":
+                    nxt = [x for _, x in t["cases"]] + [t["otherwise"]]
+                again = bi in b.reach(nxt)
+            ctx.check(again, "subst-brackets-chain:" + C.fkey(b0), "after folding one `[x := t]` group the parser looks for a further one (loop)",
+                      "%s folds at most one `[x := t]` group behind a pattern: the text `?b[?x := ?t][?y := ?u]`, which Display prints for a substitution applied to a substitution, is no longer accepted (print/parse round-trip broken for well-formed patterns)" % C.short(b0.id),
+                      where_of(b, bi, s.get("line")))
 
 
 RULES.append(l5)
